@@ -9,10 +9,12 @@ Cases (vlib/c07_cases.py): grammar networks of vlib/gen_arch.py (BatchNorm after
 residual / concat topologies, optional second forward input) in float64, handed over in train or eval mode, converted by
   PIT   fold_bn on/off x autoconvert on/off x user-placed PITConv1d/PITConv2d/PITLinear (some / all layers, built with
         the same or the default fold flag) x exclude_names; integer weights without BatchNorm (exact arithmetic)
-  SuperNet  1..3 SuperNetModules (2..5 branches: plain layer, nn.Sequential(conv, bn, relu), other kernel size, Identity)
+  SuperNet  1..3 SuperNetModules (2..5 branches: plain layer, nn.Sequential(conv, bn, relu), other kernel size, Identity) built with
+            NON-DEFAULT options: hard_softmax on/off, gumbel_softmax on/off, a pre-set combiner temperature in {0.25, 0.5, 2, 5}
   MPS   (mode sentences only).
 Oracle = the sentences of the property on the implementation: wrapped(x) vs original(x) in eval mode (1e-9, exact on
-integers), the user's model afterwards vs before (outputs bitwise, state_dict bitwise incl. missing/new entries — new
+integers), the user's model afterwards vs before (outputs bitwise in eval mode and in the mode it was handed over in, the non-tensor
+settings of its modules (hard_softmax, softmax temperature, sampler, fold_bn, eps, momentum, dropout p ...), state_dict bitwise incl. missing/new entries — new
 entries allowed only for the features-calculator book-keeping buffers of a user-placed searchable layer), .training of
 wrapper / seed / every seed sub-module / the user's model and every sub-module of it, architecture (types, hyper-
 parameters per live graph node) of an immediate export vs the original (fold_bn=True: the BatchNorm that follows a
